@@ -16,7 +16,7 @@ def main(argv):
         print("  %-9s %-60s ms=%s rlimit=%s" % (o["status"], o["id"], o.get("ms"), o.get("rlimit")))
         if o["status"] != "verified" or "-v" in argv:
             for m in o["msgs"][:6]:
-                print("      " + m["rendered"].replace("\n", "\n      ")[:1200])
+                print("      " + (m["rendered"] or m.get("message", "")).replace("\n", "\n      ")[:1200])
     if res.status != "ok" or "-e" in argv:
         # print rendered diagnostics
         n = 0
